@@ -263,6 +263,15 @@ pub fn dispatch(t: &[&str]) -> Option<Out> {
         }
         // sm2_kex <dA> <dB> <idA> <idB> <klen> <rA> <rB> <tamper>
         //   tamper: comma list of ra|rb|sb|sa (flip one bit of that message in transit) or "-"
+        // the public key is a raw Point OBJECT (the field `point` is public): possibly off the curve, at infinity, any representation
+        "sm2_verify_raw_p" => {
+            let pk = Sm2PublicKey { point: pt(t[1]) };
+            res(pk.verif_verify_raw(&unhex(t[2]), &unhex(t[3])), |_| String::new())
+        }
+        "sm2_verify_p" => {
+            let pk = Sm2PublicKey { point: pt(t[1]) };
+            res(pk.verify(leak(t[2]), &unhex(t[3]), &unhex(t[4])), |_| String::new())
+        }
         // representation-independence variants: the public key is handed over as (x z^2, y z^3, z)
         "sm2_za_j" => {
             let pk = match pkj(t[1], t[3]) { Ok(p) => p, Err(e) => return Some(Out::Err(errname(e))) };
